@@ -46,6 +46,7 @@ func checkC17(ctx *Ctx, r *Report) {
 	c17MethodChangeLocated(ctx, r)
 	c17FifthRound(ctx, r)
 	c17SixthRound(ctx, r)
+	c20UnionSingleMember(ctx, r) // an entry holding two rules applied one of them
 	c16DismissalNeedsLostOptions(ctx, r)
 	c18LiteralsShareSlices(ctx, r)
 	// the copies veneers rely on
